@@ -29,6 +29,15 @@ Fixpoint steps_guarded_b (seen_chars seen_format : bool) (l : list istep) : bool
   | _ :: r => steps_guarded_b seen_chars seen_format r
   end.
 
+(* the national step, if present, is the last one *)
+Fixpoint nat_last (l : list istep) : bool :=
+  match l with
+  | [] => true
+  | [SNational] => true
+  | SNational :: _ => false
+  | _ :: r => nat_last r
+  end.
+
 (* the character check forces two capitals and two ASCII digits at the start *)
 Definition chars_strict (cfg : iban_cfg) : bool :=
   match rp_body (ic_chars_pat cfg) with
@@ -475,6 +484,42 @@ Proof using All.
         destruct (text_eqb _ _); congruence. }
       cbn [iban_defect]. rewrite Em. reflexivity.
   - discriminate.
+Qed.
+
+
+(* ---- errors with national validation: a defect of the text as before, or - every ISO 13616 check having passed - the
+        national check's own error ---------------------------------------------------------------------------------------- *)
+Lemma run_steps_true_err s : forall l ex,
+  nat_last l = true -> run_steps e cfg T national true s l = Err ex ->
+  run_steps e cfg T national false s l = Err ex
+  \/ (run_steps e cfg T national false s l = Ok tt /\ national (iban_country_code s) (iban_bban e s) = Err ex).
+Proof.
+  induction l as [|st l IH]; intros ex Hl H; cbn [run_steps] in *; [discriminate|].
+  assert (Hcase : st = SNational \/ (run_step e cfg T national true s st = run_step e cfg T national false s st /\ nat_last l = true)).
+  { destruct st; try (right; split; [reflexivity|destruct l; exact Hl]). left; reflexivity. }
+  destruct Hcase as [->|[Hsame Hl']].
+  - destruct l as [|st' l']; [|cbn [nat_last] in Hl; discriminate].
+    cbn [run_step run_steps bind] in *. right. split; [reflexivity|].
+    destruct (national (iban_country_code s) (iban_bban e s)) as [v|x|x]; cbn [bind] in H; try discriminate.
+    inversion H. reflexivity.
+  - rewrite Hsame in H. destruct (run_step e cfg T national false s st) as [[]|x|x]; cbn [bind] in *; try discriminate.
+    + exact (IH ex Hl' H).
+    + left. exact H.
+Qed.
+
+Theorem iban_named_b s ex :
+  nat_last (ic_steps cfg) = true -> cleaned e s = true ->
+  iban_validate e cfg T national true s = Err ex ->
+  iban_defect T ex s = true
+  \/ (iso_ok T s = true /\ national (iban_country_code s) (iban_bban e s) = Err ex).
+Proof using All.
+  intros Hl Hcl H. unfold iban_validate in H.
+  destruct (run_steps e cfg T national true s (ic_steps cfg)) as [[]|x|x] eqn:E; cbn [bind] in H; try discriminate.
+  inversion H; subst x. clear H.
+  destruct (run_steps_true_err s (ic_steps cfg) ex Hl E) as [Hf|[Hok Hn]].
+  - left. apply (iban_named s ex Hcl). unfold iban_validate. rewrite Hf. reflexivity.
+  - right. split; [|exact Hn]. apply (validate_iff e cfg T national WF CFG TAB s Hcl).
+    unfold iban_validate. rewrite Hok. reflexivity.
 Qed.
 
 End Named.
